@@ -479,12 +479,59 @@ func (ev *evaluator) eval(fr *evalFrame, v ssa.Value, depth int) (interface{}, b
 			}
 		}
 		return nil, false
+	case *ssa.Slice:
+		// a substring s[lo:hi] of an evaluated string
+		sv, ok := ev.eval(fr, x.X, depth+1)
+		str, isS := sv.(string)
+		if !ok || !isS {
+			return nil, false
+		}
+		lo, hi := int64(0), int64(len(str))
+		if x.Low != nil {
+			v, ok := ev.eval(fr, x.Low, depth+1)
+			k, isI := v.(int64)
+			if !ok || !isI {
+				return nil, false
+			}
+			lo = k
+		}
+		if x.High != nil {
+			v, ok := ev.eval(fr, x.High, depth+1)
+			k, isI := v.(int64)
+			if !ok || !isI {
+				return nil, false
+			}
+			hi = k
+		}
+		if lo < 0 || hi < lo || hi > int64(len(str)) {
+			ev.panicked = true // slice bounds out of range
+			return nil, false
+		}
+		return str[lo:hi], true
 	case *ssa.Call:
+		if b, isB := x.Common().Value.(*ssa.Builtin); isB && b.Name() == "len" && len(x.Common().Args) == 1 {
+			if sv, ok := ev.eval(fr, x.Common().Args[0], depth+1); ok {
+				if str, isS := sv.(string); isS {
+					return int64(len(str)), true
+				}
+			}
+			return nil, false
+		}
 		callee := x.Common().StaticCallee()
 		if callee == nil {
 			return nil, false
 		}
 		switch callee.String() {
+		case "strings.ToUpper", "strings.ToLower":
+			a, ok := ev.eval(fr, x.Common().Args[0], depth+1)
+			as, isA := a.(string)
+			if !ok || !isA {
+				return nil, false
+			}
+			if callee.Name() == "ToUpper" {
+				return strings.ToUpper(as), true
+			}
+			return strings.ToLower(as), true
 		case "math.Ceil", "math.Floor":
 			a, ok := ev.eval(fr, x.Common().Args[0], depth+1)
 			f, isF := a.(float64)
